@@ -12,7 +12,8 @@
 
 answer (one line, parts separated by " | "):
    parse ok size=<sizeof after initializer()> rest=<tokens left> | static <cells> | auto <cells> | emit <directives>
-   | spec <cells> over=<BraceOverride> xover=<AggExprOverride> wide=<WideRange> same=<model tree = spec tree> | cover <byte masks>
+   | spec <cells> over=<BraceOverride> xover=<AggExprOverride> wide=<WideRange> tyok=<type covered by C05_parse_spec_partial>
+     same=<model tree = spec tree> | cover <byte masks>
  a failing part prints `fail diag|crash|fuel <text>` instead.  cells: two hex digits, `@label+addend#k`, `??`.
 -/
 import ChibiVerif.Model.Init
@@ -167,7 +168,7 @@ def answer (ty : Ty) (toks : List ITok) : String :=
       let rty := resolveTy ty r.obj
       -- rendered with the conversions of simple assignment (6.7.9p11): the automatic back end's leaf stores
       let cells := part (autoObject r.obj rty) showCells
-      (r.obj, rty, s!"spec {cells} over={if r.over then 1 else 0} xover={if r.fl.xover then 1 else 0} wide={if r.fl.wide then 1 else 0}")
+      (r.obj, rty, s!"spec {cells} over={if r.over then 1 else 0} xover={if r.fl.xover then 1 else 0} wide={if r.fl.wide then 1 else 0} tyok={if InitSpec.tyOk ty then 1 else 0}")
     | .error e => (Init.flex, ty, "spec " ++ showFail e)
   match initializer fuel ty toks with
   | .error e => s!"parse {showFail e} | {specPart.2.2}"
